@@ -79,7 +79,7 @@ def rule_r1_widths(ctx: Ctx) -> None:
     }
     for cname, want in table.items():
         c = ctx.cls(SER + "_primitive." + cname)
-        stmts, chain = flatten_init(repo, c)
+        stmts, chain = flatten_init(repo, c, node_of=ctx.inl)
         paths = PathEnumerator().run(stmts)
         names = ["bit_length", "cast_mode", "self._bit_length", "self._cast_mode", "self.bit_length", "self.cast_mode"]
 
@@ -130,7 +130,7 @@ def rule_r1_widths(ctx: Ctx) -> None:
     fixed = {"BooleanType": (1, SAT), "ByteType": (8, TRU), "UTF8Type": (8, TRU)}
     for cname, (wn, wcm) in fixed.items():
         c = ctx.cls(SER + "_primitive." + cname)
-        stmts, chain = flatten_init(repo, c)
+        stmts, chain = flatten_init(repo, c, node_of=ctx.inl)
         paths = [p for p in PathEnumerator().run(stmts) if p.kind == "fall"]
         found = set()
         for p in paths:
@@ -146,7 +146,7 @@ def rule_r1_widths(ctx: Ctx) -> None:
 
     # void
     c = ctx.cls(SER + "_void.VoidType")
-    stmts, chain = flatten_init(repo, c)
+    stmts, chain = flatten_init(repo, c, node_of=ctx.inl)
     paths = PathEnumerator().run(stmts)
     res = evaluate_region(
         paths,
@@ -170,7 +170,7 @@ def rule_r2_arrays(ctx: Ctx) -> None:
     caps = list(range(-2, 5)) + [255, 256, 2**32, 2**63]
     for cname in ("FixedLengthArrayType", "VariableLengthArrayType"):
         c = ctx.cls(SER + "_array." + cname)
-        stmts, chain = flatten_init(repo, c)
+        stmts, chain = flatten_init(repo, c, node_of=ctx.inl)
         paths = PathEnumerator().run(stmts)
         res = evaluate_region(
             paths,
